@@ -20,14 +20,21 @@ open CalmVerif.Gen.Tables.Cached
 
 /-! ### the certificate -/
 
+/-- the signatures of a token slot -/
+def tokSigs : SlotTy → List TC
+  | .tok cs => cs
+  | _ => []
+
+/-- per terminal: the signature of its fixed spelling; for the four terminals without one, the class the slot typing
+    itself expects of the literal node built from it (`es5Slot "Identifier" "value"`, …) -/
 def termSigsOf (i : Nat) : List TC :=
   let s := (termSpelling[i]?).getD ""
   if s != "" then [sig s]
   else match (terminals[i]?).getD "" with
-    | "ID" => wordSigs
-    | "NUMBER" => [.decInt, .numDot, .num false, .num true]
-    | "STRING" => [.str]
-    | "REGEX" => [.regex 3, .regex 0, .regex 1, .regex 2]
+    | "ID" => tokSigs (es5Slot "Identifier" "value")
+    | "NUMBER" => tokSigs (es5Slot "Number" "value")
+    | "STRING" => tokSigs (es5Slot "String" "value")
+    | "REGEX" => tokSigs (es5Slot "Regex" "value")
     | _ => []
 
 /-- string-valued nonterminals pass one terminal through -/
